@@ -722,6 +722,39 @@ func checkInvalidHandling(c *Ctx, rule string, lay *layoutOracle) {
 					c.Fail(rule, "zero-only-when-rough-invalid("+key+")", r.Pos(), "refuted", key+" returns zero on a path that is not guarded by an invalid rough value: an invalid fine value must fall back to the rough value alone")
 				}
 			}
+			// and the converse for the aggregates: a computed (non-zero-constant) result is returned
+			// only where the rough value has been tested and found valid; otherwise an invalid rough
+			// value combined with some other special case yields a number
+			if strings.HasPrefix(n, "GetAggregate") {
+				okConv := true
+				for _, r := range returnsOf(fn) {
+					if f, isC := constFloat(r.Results[0]); isC && f == 0 {
+						continue
+					}
+					valid := onEveryPath(r.Block(), func(ft EdgeFact) bool {
+						bo, ok := ft.Cond.(*ssa.BinOp)
+						if !ok || !((bo.Op == token.EQL && !ft.Val) || (bo.Op == token.NEQ && ft.Val)) {
+							return false
+						}
+						if _, isC := constInt(bo.Y); !isC {
+							return false
+						}
+						f, base := loadedField(bo.X)
+						if f == nil {
+							return false
+						}
+						bf, _ := loadedField(base)
+						return bf != nil && bf.Name() == "Satellite" && (f.Name() == "RangeWholeMillis" || f.Name() == "PhaseRangeRate")
+					})
+					if !valid {
+						okConv = false
+						c.Fail(rule, "value-only-when-rough-valid("+key+")", r.Pos(), "refuted", key+" returns a computed value on a path where the satellite's rough value has not been found valid: an invalid rough value must give zero whatever the fine value is")
+					}
+				}
+				if okConv {
+					c.OK(rule, "value-only-when-rough-valid("+key+")", fn.Pos(), "computed results are returned only after the rough value was found valid")
+				}
+			}
 			if okAll {
 				c.OK(rule, "zero-only-when-rough-invalid("+key+")", fn.Pos(), "every zero result is guarded by an invalid rough value (or missing satellite)")
 			}
